@@ -17,7 +17,7 @@ RULE = ('Cases = small valid frames (1-3 instruments, 1-8 stamps, 0-3 layers, VV
         'the same instrument (illegal) or on another instrument at the same time (legal near-miss), VV added to a typed '
         'measurement on the same / another instrument, empty frame, not a DataFrame (list, dict, Series, ndarray, None); x '
         'coercible dtype variants (ceilo as object / int objects / str; dt, height as int, float32, str, object; type as '
-        'int8, float, str, Int64) x extra columns x column permutations x arbitrary index. Oracle: AmpycloudError <=> the '
+        'int8, float, str, Int64) x extra columns x column permutations x arbitrary index labels and index names (incl. an index named like a column, as set_index(..., drop=False) leaves it). Oracle: AmpycloudError <=> the '
         'pure-Python screening model calls the coerced rows illegal (both directions; any other exception type is a '
         'failure); otherwise the result is a new object with exactly the four columns, the dtypes of '
         'hardcoded.REQ_DATA_COLS and values equal to the coerced rows positionally; the argument is deep-equal to its '
@@ -59,7 +59,8 @@ def strategy_(draw):
     return {'rows': rows, 'defects': defects, 'dtypes': dtypes,
             'extra': draw(st.lists(st.sampled_from(['x', 'slice_id', 'index']), max_size=2, unique=True)),
             'cols': list(draw(S.permutation(['ceilo', 'dt', 'height', 'type']))),
-            'index': draw(st.sampled_from(['range', 'range', 'offset', 'string', 'nonunique']))}
+            'index': draw(st.sampled_from(['range', 'range', 'offset', 'string', 'nonunique'])),
+            'index_name': draw(st.sampled_from([None, None, None, 'dt', 'ceilo', 'type', 'time']))}
 
 
 def strategy(tier):
@@ -189,6 +190,8 @@ def build(case):
         df.index = pd.Index([f'k{i}' for i in range(n)])
     elif case['index'] == 'nonunique':
         df.index = pd.Index([i // 2 for i in range(n)])
+    if case.get('index_name'):
+        df.index = df.index.set_names(case['index_name'])
     model = [[name(r[0]), float(r[1]), None if r[2] is None else float(r[2]), int(r[3])] for r in rows]
     if drop:
         df = df.drop(columns=sorted(set(drop)))
@@ -221,7 +224,8 @@ def build(case):
                          (c in ('dt', 'height') and v == 'int')] +
                         (['extra'] if case['extra'] else []) +
                         (['colperm'] if case['cols'] != ['ceilo', 'dt', 'height', 'type'] else []) +
-                        (['index:' + case['index']] if case['index'] != 'range' else [])))
+                        (['index:' + case['index']] if case['index'] != 'range' else []) +
+                        (['index-name:' + case['index_name']] if case.get('index_name') else [])))
     return obj, model, verdict, kinds, layout
 
 
